@@ -49,6 +49,7 @@ func exploreFSM(cr *CheckRun, maxn int, witness bool) *fsmGraph {
 		round++
 		mk := func(a, ev string, variant int) Job {
 			return Job{Pkg: fsmPkg, Fn: "VF_FSMStep", Opts: opts, Tag: "state=" + a + " event=" + ev + " variant=" + strconv.Itoa(variant),
+				Case: "state=" + absState(a) + " event=" + ev,
 				Params: map[string]string{"abs": a, "event": ev, "variant": strconv.Itoa(variant), "maxn": strconv.Itoa(maxn)}}
 		}
 		var jobs []Job
@@ -326,7 +327,7 @@ func fsmStep2(cr *CheckRun, g *fsmGraph) {
 	opts := defaultOpts()
 	for _, a := range states {
 		for _, e1 := range fsmEvents {
-			jobs = append(jobs, Job{Pkg: fsmPkg, Fn: "VF_FSMStep2", Opts: opts, Tag: "state=" + a + " e1=" + e1,
+			jobs = append(jobs, Job{Pkg: fsmPkg, Fn: "VF_FSMStep2", Opts: opts, Tag: "state=" + a + " e1=" + e1, Case: "state=" + absState(a) + " e1=" + e1,
 				Params: map[string]string{"abs": a, "event": e1, "variant": "0", "maxn": "3"}})
 		}
 	}
